@@ -124,7 +124,9 @@ class InlineTranslator:
             transformed = transformed[len(elem.terms) :]
             new_terms = terms + list(replace_elem.terms[1:])
             new_terms.extend([Function(LOC, "unique", [], False)] * (max_arity - len(new_terms) + 1))
-            new_elements.append(elem.update(terms=new_terms, condition=transformed))
+            # keep the other conditions of the element that used the inlined predicate
+            rest_conditions = [cond for cond in replace_elem.condition if cond != replace_cond]
+            new_elements.append(elem.update(terms=new_terms, condition=transformed + rest_conditions))
         return new_elements
 
     def inline_body_aggregate(self, rule: AST, atom: AST, unique_vars: UniqueVariables) -> AST:
